@@ -719,8 +719,9 @@ def factor_density_matrix(
     remainder = partial_trace(t, remaining_axes)
     if validate:
         t1 = density_matrix_kronecker_product(extracted, remainder)
+        # Axis j of the product holds original axis product_axes[j]: undo that permutation.
         product_axes = list(axes) + remaining_axes
-        t2 = transpose_density_matrix_to_axis_order(t1, product_axes)
+        t2 = transpose_density_matrix_to_axis_order(t1, np.argsort(product_axes).tolist())
         if not np.allclose(t2, t, atol=atol):
             raise ValueError('The tensor cannot be factored by the requested axes')
     return extracted, remainder
